@@ -96,6 +96,45 @@ func sameResp(v gen.RV, r redis.Resp) string {
 }
 
 // c10RoundTrip: Encode/Decode identity, and the tool's encoding equals the reference encoding.
+// c10SharedBacking: the arguments of a command are adjacent pieces of one buffer (as they are after an inline command
+// has been split, or when a caller slices one read buffer): encoding the command neither changes them nor mixes them up.
+func c10SharedBacking(t *rapid.T) {
+	n := rapid.IntRange(2, 6).Draw(t, "nargs")
+	var whole []byte
+	var lens []int
+	for i := 0; i < n; i++ {
+		a := rapid.SliceOfN(rapid.Byte(), 0, 12).Draw(t, "arg")
+		whole = append(whole, a...)
+		lens = append(lens, len(a))
+	}
+	backing := make([]byte, len(whole), len(whole)+64) // spare capacity behind every piece
+	copy(backing, whole)
+	args := make([]redis.Resp, n)
+	var want bytes.Buffer
+	fmt.Fprintf(&want, "*%d\r\n", n)
+	pos := 0
+	for i, l := range lens {
+		args[i] = redis.NewBulkBytes(backing[pos : pos+l])
+		fmt.Fprintf(&want, "$%d\r\n%s\r\n", l, whole[pos:pos+l])
+		pos += l
+	}
+	arr := redis.NewArray()
+	arr.Value = append(arr.Value, args...)
+	got, err := redis.EncodeToBytes(arr)
+	if err != nil {
+		t.Fatalf("encode: %v", err)
+	}
+	if !bytes.Equal(got, want.Bytes()) {
+		violation(t, "C10", "encode-differs:shared-backing", "a command whose %d arguments are adjacent pieces of one buffer encodes to %q, reference %q", n, got, want.Bytes())
+		return
+	}
+	if !bytes.Equal(backing, whole) {
+		violation(t, "C10", "encode-modifies-input", "encoding changed the caller's argument bytes: %q -> %q", whole, backing)
+		return
+	}
+	stats.C.Case(true, stats.Hash(whole, []byte{byte(n)}), "shared-backing")
+}
+
 func c10RoundTrip(t *rapid.T) {
 	v := gen.RespValue(4).Draw(t, "v")
 	want := v.Bytes()
@@ -475,6 +514,7 @@ func TestC10(t *testing.T) {
 	t.Run("stream", func(t *testing.T) { rapid.Check(t, c10Stream) })
 	t.Run("malformed", func(t *testing.T) { rapid.Check(t, c10Malformed) })
 	t.Run("args", func(t *testing.T) { rapid.Check(t, c10Args) })
+	t.Run("shared", func(t *testing.T) { rapid.Check(t, c10SharedBacking) })
 }
 
 // Integer table boundaries, exhaustively around the pre-rendered range.
